@@ -72,7 +72,12 @@ def ops_text(ops, shapes):
             out.append("  ignore %s" % RES[o[1]])
         else:
             switch("interpretation")
-            out.append("  %s %s %s" % (MODES[o[1]], o[2], RES[o[3]]))
+            # the grammar allows any run of blanks between the words (`foul\s+upon`): one clause in four is written
+            # with a wide blank or a tab
+            k = (len(out) * 7 + len(str(o[1])) + len(str(o[3])) + len(o[2])) % 8
+            mode = MODES[o[1]].replace(" ", "  " if k == 1 else "\t" if k == 2 else " ")
+            sep = "   " if k == 3 else " "
+            out.append("  %s%s%s%s%s" % (mode, sep, o[2], sep, RES[o[3]]))
     if sec:
         out.append("end")
     return "\n".join(out) + "\n"
